@@ -2,43 +2,116 @@ package main
 
 // C09, second sentence ("concurrent use of one storage backend from several goroutines is
 // free of data races"): a Go-memory-model fact, explored — not proved — by running the
-// driver-level hammer harness/internal/conc/race under the Go race detector.  Thorough tier
-// only (building the Kubernetes client libraries with -race takes minutes).
+// driver-level hammer harness/internal/conc/race under the Go race detector.
+// Thorough tier: the full hammer.  Quick tier: a short hammer from a cached race-built test
+// binary under /verif/.work/c09-race (rebuilt only when pkg/storage, pkg/release of the
+// repository under test or the hammer itself change; a rebuild that does not finish within
+// its budget is reported as skipped, never as a violation).
 
 import (
 	"context"
+	"crypto/sha256"
+	"encoding/hex"
+	"io"
+	"os"
 	"os/exec"
+	"path/filepath"
+	"sort"
 	"strings"
 	"time"
 
 	"verif/harness/internal/hx"
 )
 
-var c09RaceFound string // non-empty: the detector reported a race (or the hammer failed)
+var c09RaceFound string // non-empty: the detector reported a race (or the runtime aborted on one)
 
-func c09RaceRun() {
+func c09RaceKey() string {
+	repo := os.Getenv("VERIF_REPO")
+	if repo == "" {
+		repo = "/repo"
+	}
+	h := sha256.New()
+	var files []string
+	for _, d := range []string{filepath.Join(repo, "pkg", "storage"), filepath.Join(repo, "pkg", "release"), filepath.Join("internal", "conc", "race")} {
+		filepath.Walk(d, func(p string, info os.FileInfo, err error) error {
+			if err == nil && !info.IsDir() && strings.HasSuffix(p, ".go") {
+				files = append(files, p)
+			}
+			return nil
+		})
+	}
+	files = append(files, "go.mod", filepath.Join(repo, "go.mod"))
+	sort.Strings(files)
+	for _, f := range files {
+		io.WriteString(h, f+"\n")
+		if fh, err := os.Open(f); err == nil {
+			io.Copy(h, fh)
+			fh.Close()
+		}
+	}
+	return hex.EncodeToString(h.Sum(nil)[:10])
+}
+
+func c09RaceRun(tier string) {
 	start := time.Now()
-	ctx, cancel := context.WithTimeout(context.Background(), 25*time.Minute)
+	res := map[string]any{"tier": tier}
+	defer func() { res["wall_s"] = time.Since(start).Seconds(); hx.Extra["race_run"] = res }()
+	dir, _ := filepath.Abs(filepath.Join("..", ".work", "c09-race"))
+	os.MkdirAll(dir, 0o755)
+	bin := filepath.Join(dir, "hammer-"+c09RaceKey()+".test")
+	if _, err := os.Stat(bin); err != nil {
+		budget := 25 * time.Minute
+		if tier != "thorough" {
+			budget = 240 * time.Second
+		}
+		ctx, cancel := context.WithTimeout(context.Background(), budget)
+		tmp := bin + ".tmp"
+		out, berr := exec.CommandContext(ctx, "go", "test", "-race", "-c", "-o", tmp, "./internal/conc/race/").CombinedOutput()
+		cancel()
+		res["build_s"] = time.Since(start).Seconds()
+		if berr != nil {
+			os.Remove(tmp)
+			txt := string(out)
+			if strings.Contains(txt, "cgo") {
+				res["skipped"] = "the race detector is not available in this environment: " + tail(txt, 300)
+			} else {
+				res["skipped"] = "the race-instrumented hammer was not built within " + budget.String() + ": " + berr.Error() + " " + tail(txt, 300)
+			}
+			return
+		}
+		os.Rename(tmp, bin)
+		// keep only the current binary
+		if old, _ := filepath.Glob(filepath.Join(dir, "hammer-*.test")); len(old) > 1 {
+			for _, o := range old {
+				if o != bin {
+					os.Remove(o)
+				}
+			}
+		}
+	} else {
+		res["cached_binary"] = true
+	}
+	ctx, cancel := context.WithTimeout(context.Background(), 10*time.Minute)
 	defer cancel()
-	cmd := exec.CommandContext(ctx, "go", "test", "-race", "-count=1", "./internal/conc/race/")
+	cmd := exec.CommandContext(ctx, bin, "-test.count=1")
+	cmd.Env = os.Environ()
+	if tier != "thorough" {
+		cmd.Env = append(cmd.Env, "C09_HAMMER=quick")
+	}
 	out, err := cmd.CombinedOutput()
 	txt := string(out)
-	res := map[string]any{
-		"cmd":      "go test -race -count=1 ./internal/conc/race/  (Memory, Secrets, ConfigMaps drivers and the storage layer, 8 goroutines each)",
-		"wall_s":   time.Since(start).Seconds(),
-		"ok":       err == nil,
-		"race":     strings.Contains(txt, "DATA RACE"),
-		"log_tail": tail(txt, 1500),
-	}
+	res["cmd"] = "go test -race -c ./internal/conc/race/ ; hammer.test  (Memory, Secrets, ConfigMaps drivers and the storage layer, 8 goroutines each" +
+		map[bool]string{true: "", false: "; short run"}[tier == "thorough"] + ")"
+	res["ok"] = err == nil
+	raced := strings.Contains(txt, "DATA RACE") || strings.Contains(txt, "concurrent map")
+	res["race"] = raced
+	res["log_tail"] = tail(txt, 1500)
 	switch {
-	case strings.Contains(txt, "DATA RACE"):
+	case raced:
 		c09RaceFound = "the race detector reported a data race in the storage driver hammer:\n" + tail(txt, 1200)
-	case err != nil && (strings.Contains(txt, "-race requires cgo") || strings.Contains(txt, "cgo") && strings.Contains(txt, "not")):
-		res["skipped"] = "the race detector is not available in this environment"
 	case err != nil:
 		res["error"] = err.Error()
 	}
-	hx.Extra["race_run"] = res
 }
 
 func tail(s string, n int) string {
